@@ -4,8 +4,10 @@
 # * documented forms: $NAME, ${NAME}, ${NAME:-default}; NAME = [A-Za-z_][A-Za-z0-9_]*; a "$" that starts none of
 #   them is ordinary text.  Only texts whose tokens keep their identity when concatenated are generated (a
 #   literal starting with an identifier character directly after $NAME would extend the name).
-# * a variable that is set to the empty string and has a default: the statement only speaks of unset variables,
-#   both the empty value and the default are accepted.
+# * a variable that is SET TO THE EMPTY STRING is a set variable: "${NAME:-default}" must yield its (empty) value,
+#   like "$NAME" and "${NAME}" do.  The statement gives the default only to unset variables and the project's
+#   documentation (docs/docs/configuration/environment-variables.md: "Uses `info` if `LOG_LEVEL` is not set")
+#   says nothing that would make "empty = unset" (shell ":-" semantics) a permissible reading.
 # * defaults containing references and names with other characters are not generated (undocumented).
 import vf, _configtext as T
 
